@@ -86,7 +86,8 @@ def drain : Nat → Tracker → Option Nat → Bool → Tracker × Bool
           else
             let t1 := { t with payload := t.payload ++ chunk, seq := wrap32 (t.seq + chunk.length) }
             let (t2, it) := eraseIterator t1 key chunk.length
-            drain fuel t2 it true
+            -- `if (!iter->second.empty()) added_some = true;`
+            drain fuel t2 it (added || !chunk.isEmpty)
         else (t, added)
 
 /-- `DataTracker::process_payload(seq, payload)` -/
